@@ -4,7 +4,7 @@ from typing import Pattern
 from codemodder.codemods.base_transformer import BaseTransformerPipeline
 from codemodder.codetf import Change, ChangeSet
 from codemodder.context import CodemodExecutionContext
-from codemodder.diff import create_diff
+from codemodder.diff import create_diff, split_on_newlines
 from codemodder.file_context import FileContext
 from codemodder.logging import logger
 from codemodder.result import Result
@@ -64,7 +64,10 @@ class RegexTransformerPipeline(BaseTransformerPipeline):
             logger.debug("No changes produced for %s", file_context.file_path)
             return None
 
-        diff = create_diff(original_lines, updated_lines)
+        diff = create_diff(
+            split_on_newlines("".join(original_lines)),
+            split_on_newlines("".join(updated_lines)),
+        )
 
         if not context.dry_run:
             file_context.file_path.write_bytes("".join(updated_lines).encode("utf-8"))
